@@ -4,7 +4,9 @@ For every case the encoder gets a freshly seeded torch.Generator; the random dra
 obtained by REPLAYING the same sampler calls on a second, identically seeded generator (nothing in
 inferno or torch is patched).  Output per case: status / exception class, the spike tensor (time-major,
 elements flattened row-major), shape and dtype observations, the replayed draws, and whether a second run
-from the same generator state reproduced the result.
+from the same generator state reproduced the result.  Online encoders are consumed BOTH ways: slice by slice
+(each slice copied out when it is yielded) and gathered with list(...) then stacked without cloning; the
+gathered slices are probed for shared storage (data_ptr, in-place mutation).
 
 mode "bern": replays torch.bernoulli on probabilities computed by the Coq model (ties the model's
 probability computation to the implementation's sampler input).
@@ -118,7 +120,28 @@ class Replayer:
         return []
 
 
-def run_once(case, want_draws):
+def alias_probe(slices):
+    """do distinct yielded slices share memory?  (i) equal data pointers, (ii) mutation probe: flipping one
+    slice in place must leave every other slice unchanged"""
+    ptrs = [s.data_ptr() for s in slices if s.numel() > 0]
+    shared_ptr = len(set(ptrs)) != len(ptrs)
+    snap = [s.clone() for s in slices]
+    leak = False
+    for i, s in enumerate(slices):
+        if s.numel() == 0:
+            continue
+        s.logical_not_()
+        for j, o in enumerate(slices):
+            if j != i and not torch.equal(o, snap[j]):
+                leak = True
+        s.copy_(snap[i])
+    return {"shared_data_ptr": shared_ptr, "mutation_leaks": leak}
+
+
+def run_once(case, want_draws, gather=False):
+    """online encoders are consumed in one of two ways: slice by slice, copying each slice out as soon as it is
+    yielded (gather=False; also replays the draws), or gathered with list(...) and only then stacked, without
+    cloning (gather=True; also probes the gathered slices for shared storage)"""
     n = int(math.prod(case["shape"]))
     out = {"status": "ok", "exc": None, "msg": None, "out": [], "nslices": 0, "shape_ok": True, "dtype_ok": True,
            "stage": None}
@@ -140,6 +163,15 @@ def run_once(case, want_draws):
             out["out_shape"] = list(res.shape)
             out["out"] = boolrows(res, n) if res.ndim >= 1 and res.numel() == res.shape[0] * n else []
             out["nslices"] = int(res.shape[0]) if res.ndim >= 1 else 0
+        elif gather:
+            out["stage"] = "iterate"
+            slices = list(res)
+            out["nslices"] = len(slices)
+            out["shape_ok"] = all(list(s.shape) == list(case["shape"]) for s in slices)
+            out["dtype_ok"] = all(s.dtype == torch.bool for s in slices)
+            if slices and out["shape_ok"]:
+                out["out"] = boolrows(torch.stack(slices), n)
+                out["alias"] = alias_probe(slices)
         else:
             out["stage"] = "iterate"
             sl = []
@@ -162,8 +194,11 @@ def run_once(case, want_draws):
 
 def run_case(case):
     a = run_once(case, True)
-    b = run_once(case, False)
+    b = run_once(case, False, gather=True)
     a["repro"] = (a["status"] == b["status"] and a["out"] == b["out"] and a["exc"] == b["exc"])
+    # second consumption mode of the online encoders (same generator seed): gather, then stack
+    a["gather"] = {"status": b["status"], "exc": b["exc"], "msg": b["msg"], "out": b["out"], "nslices": b["nslices"],
+                   "shape_ok": b["shape_ok"], "dtype_ok": b["dtype_ok"], "alias": b.get("alias")}
     return a
 
 
